@@ -56,12 +56,12 @@ func (t *Term) IsParam(name string) bool { return t != nil && t.Op == "Param" &&
 // environment (path-sensitive) and looking through single-store cells.
 type Terms struct {
 	p     *Prog
-	env   func(*ssa.Phi) ssa.Value // optional phi resolution
+	env   func(ssa.Value) ssa.Value // optional resolution of phis / inlined parameters and call results
 	depth int
 	allocN map[*ssa.Alloc]int
 }
 
-func (p *Prog) NewTerms(env func(*ssa.Phi) ssa.Value) *Terms {
+func (p *Prog) NewTerms(env func(ssa.Value) ssa.Value) *Terms {
 	return &Terms{p: p, env: env, allocN: map[*ssa.Alloc]int{}}
 }
 
@@ -152,6 +152,14 @@ func (tb *Terms) of(v ssa.Value, d int) *Term {
 	}
 	if d > 12 {
 		return &Term{Op: "Opaque", Name: "deep:" + v.Name(), V: v}
+	}
+	if tb.env != nil {
+		switch v.(type) {
+		case *ssa.Parameter, *ssa.Call, *ssa.Extract:
+			if r := tb.env(v); r != nil && r != v {
+				return tb.of(r, d+1)
+			}
+		}
 	}
 	switch x := v.(type) {
 	case *ssa.Parameter:
